@@ -34,6 +34,10 @@ def run(ctx):
     # family, its oracle is the clock arithmetic of this property
     from harness.props import C18
     C18.initial_time_family(ctx, ctx.n(20, 300))
+    # the clock of a simulation is not disturbed by a simulation running in another thread (C15's choreography: its oracle
+    # is the clock readings of both)
+    from harness.props import C15
+    C15.choreographed_threads(ctx, ctx.n(1, 5))
 
 
 def sd_backend(ctx, n):
